@@ -192,3 +192,50 @@ def is_cmp(t, op, a_pred, b_pred):
     if t[1] == op and pa(t[3]) and pb(t[4]): return True
     if t[1] == SWAP[op] and pa(t[4]) and pb(t[3]): return True
     return False
+
+
+def argv(ev, i):
+    """value of argument i, looking through a reference to a local (by-value <-> by-reference
+    parameter passing must not matter to a rule)"""
+    a = ev.args[i]
+    if ev.argvals and i < len(ev.argvals) and ev.argvals[i] is not None: return ev.argvals[i]
+    if a[0] == 'ref_t' and a[1][0] == 'deref': return a[1][1]
+    return a
+
+
+def loop_var_range(engine, var):
+    """If `var` is a loop counter, return (start, end, facts_needed) for the idioms
+      for v in a..b            (payload of Range::next on an iterator created from Range{a, b})
+      let mut v = a; while v < b { ..; v += 1 }   (merge of a and v + 1; the bound is a must-fact)
+    as (start_term, end_term_or_None).  None if not recognised."""
+    # for-loop: var = ((next_ret as Some).0)
+    if var[0] == 'fld' and var[1][0] == 'dc':
+        nxt = var[1][1]
+        for ev in engine.events.values():
+            if ev.ret == nxt and ev.callee and ev.callee.endswith("::next") and ev.argvals and ev.argvals[0] is not None:
+                it = ev.argvals[0]
+                for e2 in engine.events.values():
+                    if e2.callee and "into_iter" in e2.callee and e2.args and e2.args[0][0] == 'agg' and e2.args[0][1] == 'adt:std::ops::Range' and derives(engine, it, e2.ret):
+                        return e2.args[0][3][0], e2.args[0][3][1]
+        return None
+    if var[0] == 'phi':
+        ops = engine.phi_ops.get(var, set())
+        steps = [o for o in ops if o[0] == 'op' and o[1] == 'add' and ((o[3] == var and o[4][0] == 'c' and o[4][2] == 1) or (o[4] == var and o[3][0] == 'c' and o[3][2] == 1))]
+        inits = [o for o in ops if o not in steps]
+        if len(steps) == 1 and len(inits) == 1:
+            return inits[0], None
+        # the first increments may have been constant-folded before the merge generalised:
+        # {c, c+1, .., phi+1} is the counter starting at c
+        if len(steps) == 1 and inits and all(o[0] == 'c' for o in inits):
+            vals = sorted(o[2] for o in inits)
+            if vals == list(range(vals[0], vals[0] + len(vals))):
+                return min(inits, key=lambda o: o[2]), None
+    return None
+
+
+def loop_bound_from_facts(facts, var):
+    """upper bound term b such that `var < b` is a must-fact"""
+    for op, a, c, pos in cmp_facts(facts):
+        if pos and op == "lt" and a == var: return c
+        if (not pos) and op == "ge" and a == var: return c
+    return None
